@@ -22,6 +22,14 @@ CHECKS["C09"] = dict(level="model_checking", engine="E1-enum",
    technique="exhaustive enumeration of all subsets of script slots per format x script byte classes, incl. a rebuild after the script files were rewritten; slot bytes decoded from the real packages",
    text="All 2^7+2^7+2^6+2^6+2^4 subsets of configurable script slots x byte classes (normal, no trailing newline, CRLF, bytes 0x80-0xff, one file shared by all slots; thorough: empty, NUL) are packaged for real; every slot's bytes are decoded from control members / rpm scriptlet tags / .INSTALL functions and must equal the configured file, slots populated iff configured, modes 0755/0644. Every non-empty subset is also rebuilt after a priming build whose script files (same paths) held other bytes.",
    note="Trusted: pkgread decoders incl. the .INSTALL function splitter; rpm scriptlets with NUL excluded (impossible by format).", ref="§3 C09")
+CHECKS["C03"] = dict(level="model_checking", engine="E1-enum",
+   technique="bounded-exhaustive enumeration of payload shapes x name classes x compressions on the real packagers; every stored digest/size recomputed from the decoded shipped bytes; incl. a rebuild after a source was rewritten",
+   text="Every multiset of <=2 (thorough <=3) payload items over {files of 0,1,1023,1024,5000 B and 200 KiB/3 MiB, dir, symlink, config, ghost, mutable file} plus the empty payload, destination name classes (space, %, #, backslash, non-ASCII), all compression settings, five formats. deb md5sums + Installed-Size, apk datahash + PAX SHA-1 + size, archlinux .MTREE (type/mode/time/size/md5/sha256/link, .PKGINFO first) + size, rpm sig SHA256/SIGSIZE/PAYLOADSIZE, PAYLOADDIGEST, FILEDIGESTS/FILESIZES/SIZE, ipk Installed-Size are recomputed from the bytes as shipped. A second build after a source file was rewritten with equal length and mtime must describe the new bytes.",
+   note="Trusted: pkgread decoders; mtree(5) word splitting and \\ooo escapes as in libarchive (cross-checked once with bsdtar); size tags accepted in the ranges listed in the evidence assumptions.", ref="§3 C03")
+CHECKS["C04"] = dict(level="model_checking", engine="E1-enum",
+   technique="enumeration of one configuration per structural class incl. exhaustive alignment-residue sweeps on the real packagers; structure validators plus independent readers (dpkg-deb, GNU tar, bsdtar, go-rpmutils)",
+   text="Every entry template alone, the empty payload, pairs, every compression, scripts, signed variants (deb debsign/dpkg-sig x 4 compressions, rpm, apk with 2048/4096-bit keys), member names of 99..260 bytes and with odd characters, one destination spelled two ways, and exhaustive alignment sweeps (all 512 residues of the apk control segment, 64 for the deb ar members, 16 for rpm/ipk/archlinux; apk script lengths around 512/1024) are built; each package is walked end to end by harness validators (ar members and padding, tar block structure and end markers, apk segment rules, rpm lead/alignment/header-cpio correspondence and order, archlinux member order, tar name rules) and by an independent implementation.",
+   note="Trusted: pkgread validators; dpkg-deb, GNU tar, bsdtar, go-rpmutils as second opinions when installed; rpm/apk-tools/pacman/opkg themselves are not in the image.", ref="§3 C04")
 NOT_YET = {}
 ALL = ["C%02d" % i for i in range(1, 18)]
 
